@@ -127,6 +127,7 @@ fn main() {
         "worker" => supervisor::worker_main(&args[2]),
         "replay" => supervisor::replay_main(&args[2], &args[3..]),
         "record" => record_main(&args[2], &args[3..]),
+        "emitstate" => fam_emitter::emitstate(&args[2..]),
         _ => {
             eprintln!("unknown subcommand {}", args[1]);
             2
